@@ -384,6 +384,16 @@ def build_property(prop, extra_targets=()):
     return True, ok_proofs, rep, log1 + "\n" + log2
 
 
+def coqchk(prop, timeout=1800):
+    """Independent re-check of the compiled property file and everything it depends on; returns the
+    CONTEXT SUMMARY (axioms, type-in-type, unsafe fixpoints, assumed positivity) as text."""
+    rc, out = _run(["timeout", str(timeout), "coqchk", "-silent", "-o", "-Q", "theories", "Attrs",
+                    "Attrs.Props.%s" % prop], cwd=COQ, timeout=timeout + 60)
+    i = out.find("CONTEXT SUMMARY")
+    summary = " ".join(out[i:].split()) if i >= 0 else "coqchk produced no summary: " + out[-300:]
+    return rc == 0, summary
+
+
 def failing_item(log: str) -> str:
     m = re.search(r'File "([^"]+)", line (\d+)', log)
     n = re.search(r"\(in proof ([A-Za-z0-9_']+)\)", log)
